@@ -4,6 +4,11 @@ enum: real `SFTPFile.check` -> real `SFTPServer._check_file` over the synchronou
 result is compared with hashlib over the served bytes.  The served handle counts read() calls; a
 request that needs more than a generous budget (proportional to range/64 KiB + number of blocks)
 is reported as "does not answer" instead of hanging the checker.
+
+Dimension "read policy of the handle's file object": `SFTPHandle.read` is documented to return *up
+to* `length` bytes and to signal end of file with b"" or SFTP_EOF, so every grid case is run against
+a handle whose file object reads in full, returns at most k bytes per read, or cuts the k-th read of
+the request short - each with both end-of-file signals.  The digests must not depend on it.
 """
 import hashlib
 import itertools
@@ -12,6 +17,7 @@ import shutil
 import tempfile
 
 from vmc import core, enum, sftp_raw as R
+from paramiko.sftp import SFTP_EOF
 
 PID = "C32"
 META = {
@@ -23,12 +29,17 @@ META = {
             "{0,255,256,1000,65536,65537,100000} x algorithm lists {md5, sha1, unknown+md5, sha1+md5}: "
             "full product in thorough (plus offsets {255,65535,65537,size/2}, lengths {255,1000,131072,"
             "size-1,size+1}, block sizes {257,4096,65535,131072}), the 1/6 sub-lattice (index sum = 0 mod 6, every value of every "
-            "parameter kept) in quick.  Oracle: digest == concatenation of hash(content[a:b]) over "
+            "parameter kept) in quick.  Every grid case x read policy of the handle's "
+            "file object {full reads; at most 255/1000/32768/65535 bytes per read; the 1st/2nd/3rd read of "
+            "the request returns 1 byte or half of what was asked} x end-of-file signal of handle.read "
+            "{b'', SFTP_EOF} (full product in both tiers).  Oracle: digest == concatenation of hash(content[a:b]) over "
             "consecutive blocks of the range clipped at EOF; every request is answered within the read "
-            "budget.",
+            "budget (scaled to the policy's read size).",
     "note": "block size 0 = one hash over the whole range; for ranges shorter than 256 bytes with "
             "block size 0, for block sizes 1..255 and for empty ranges a refusal is accepted as well "
-            "(the statement is silent there)",
+            "(the statement is silent there); a case that already fails with full reads and b'' at EOF "
+            "is not re-run under the other read policies, a failure seen only under a policy carries the "
+            "policy class in its key (:short-reads / :eof-code)",
     "design_ref": "4/C32",
 }
 
@@ -36,6 +47,72 @@ SIZES = [0, 1, 255, 256, 1000, 65535, 65536, 65537, 131072, 200000, 409600]
 BLOCKS = [0, 255, 256, 1000, 65536, 65537, 100000]
 ALGS = ["md5", "sha1", "nope,md5", "sha1,md5"]
 CHUNK = 65536
+
+
+# read policy of the file object behind the served handle (what one readfile.read(n) call returns
+# before end of file): ("full",) | ("cap", k): at most k bytes | ("kth", k, "1"|"half"): the k-th
+# read call of the request returns 1 byte / half of what was asked, every other call reads in full
+READ_POLICIES = ([("full",)] + [("cap", k) for k in (255, 1000, 32768, 65535)]
+                 + [("kth", k, m) for k in (1, 2, 3) for m in ("1", "half")])
+# how handle.read signals end of file (both documented): b"" or the SFTP_EOF code
+EOF_SIGNALS = ["empty", "code"]
+# order matters for attribution: baseline first, then one deviation at a time, then both
+POLICIES = ([(READ_POLICIES[0], "empty"), (READ_POLICIES[0], "code")]
+            + [(rp, "empty") for rp in READ_POLICIES[1:]]
+            + [(rp, "code") for rp in READ_POLICIES[1:]])
+BASELINE = POLICIES[0]
+
+
+class PolicyFile:
+    """File object for `SFTPHandle.readfile`: the real buffered file, reading according to a policy."""
+
+    def __init__(self, f):
+        self.f = f
+        self.policy = ("full",)
+        self.calls = 0          # read calls of the current request
+
+    def read(self, n=-1):
+        self.calls += 1
+        p = self.policy
+        if n is not None and n > 0:
+            if p[0] == "cap":
+                n = min(n, p[1])
+            elif p[0] == "kth" and self.calls == p[1]:
+                n = 1 if p[2] == "1" else max(1, n // 2)
+        return self.f.read(n)
+
+    def __getattr__(self, name):        # seek / tell / fileno / close / ...
+        return getattr(self.f, name)
+
+
+def install_policy(lb):
+    """Put a PolicyFile behind the (single) open server handle -> object with .set(policy)."""
+    (h,) = lb.srv.file_table.values()
+    pf = PolicyFile(h.readfile)
+    h.readfile = pf
+    state = {"eof": "empty"}
+    inner = type(h).read
+
+    def read(offset, length):
+        data = inner(h, offset, length)
+        if state["eof"] == "code" and isinstance(data, bytes) and len(data) == 0:
+            return SFTP_EOF
+        return data
+
+    h.read = read
+
+    class Ctl:
+        def set(self, policy):
+            pf.policy, state["eof"] = policy
+            pf.calls = 0
+
+    return Ctl()
+
+
+def policy_suffix(policy):
+    rp, eof = policy
+    parts = (["short-reads"] if rp[0] != "full" else []) + (["eof-code"] if eof == "code" else [])
+    return "".join(":" + x for x in ["+".join(parts)] if x)
 
 
 def offsets_for(size, tier="quick"):
@@ -106,18 +183,26 @@ def classify(size, off, ln, bs):
     return "block<=64KiB"
 
 
-def judge(acc, size, data, fobj, lb, case):
+def judge(acc, size, data, fobj, lb, case, ctl=None, policy=BASELINE):
+    """-> True when the case passed (no violation recorded)"""
     off, ln, bs, alg = case
     want, rng, nblocks = expected(data, off, ln, bs, alg)
-    lb.si.read_budget = 4 * (nblocks + rng // CHUNK + 2) + 64
-    cls = classify(size, off, ln, bs)
-    rec = {"size": size, "offset": off, "length": ln, "block_size": bs, "alg": alg}
+    rp, eofsig = policy
+    per_read = min(CHUNK, rp[1]) if rp[0] == "cap" else CHUNK
+    lb.si.read_budget = 4 * (nblocks + rng // per_read + 2) + 64
+    cls = classify(size, off, ln, bs) + policy_suffix(policy)
+    rec = {"size": size, "offset": off, "length": ln, "block_size": bs, "alg": alg,
+           "read_policy": list(rp), "eof_signal": eofsig}
     replay = dict(rec)
+    if ctl is not None:
+        ctl.set(policy)
     acc.ev()
     statement_applies = (bs >= 256 or (bs == 0 and rng >= 256)) and rng > 0
     if statement_applies:
-        acc.nt((size, off, ln, bs, alg))
-        acc.count("class " + cls)
+        acc.nt((size, off, ln, bs, alg, rp, eofsig))
+        if policy == BASELINE:
+            acc.count("class " + cls)
+        acc.count("policy %s eof=%s" % (rp[0], eofsig))
     err = None
     got = None
     try:
@@ -127,10 +212,10 @@ def judge(acc, size, data, fobj, lb, case):
         acc.violation("no-answer-spins:%s" % cls,
                       {"case": rec, "clipped_range": rng, "blocks": nblocks,
                        "read_budget": lb.si.read_budget, "last_read": str(e)}, replay)
-        return
+        return False
     except R.NoResponse as e:
         acc.violation("no-response:%s" % cls, {"case": rec, "error": repr(e)}, replay)
-        return
+        return False
     except Exception as e:
         err = e
     acc.cmax("max_reads_per_request", lb.si.reads)
@@ -138,10 +223,11 @@ def judge(acc, size, data, fobj, lb, case):
         acc.count("refused")
         if statement_applies:
             acc.violation("refused:%s" % cls, {"case": rec, "error": repr(err)}, replay)
-        return
+            return False
+        return True
     if not statement_applies and not (bs >= 256 or bs == 0):
         # block size 1..255 accepted by the server: the statement says nothing; only termination
-        return
+        return True
     if got != want:
         dl = hashlib.new(first_supported(alg)).digest_size
         nb = len(got) // dl
@@ -150,9 +236,10 @@ def judge(acc, size, data, fobj, lb, case):
                       {"case": rec, "clipped_range": rng, "blocks_expected": nblocks, "blocks_returned": nb,
                        "first_wrong_block": bad // dl,
                        "got": got[:40], "want": want[:40]}, replay)
-        return
-    if statement_applies and (off * 7 + ln + bs) % 97 == 0:
+        return False
+    if statement_applies and (off * 7 + ln + bs + 13 * POLICIES.index(policy)) % 97 == 0:
         acc.sample({"case": rec, "blocks": nblocks, "digest_len": len(got), "reads": lb.si.reads})
+    return True
 
 
 def run_size(item, acc):
@@ -165,9 +252,24 @@ def run_size(item, acc):
             f.write(data)
         client, lb = R.loop_client(base)
         fobj = client.open("t", "r")
+        ctl = install_policy(lb)
         try:
             for case in cases:
-                judge(acc, size, data, fobj, lb, case)
+                if isinstance(case[-1], tuple) and len(case) == 5:      # replay: one stated policy
+                    judge(acc, size, data, fobj, lb, case[:4], ctl, case[4])
+                    continue
+                # baseline first; a case that fails there is not re-run, and a deviation that fails
+                # on its own (short reads / EOF code) is not re-run combined with the other one
+                failed = set()
+                for policy in POLICIES:
+                    rp, eofsig = policy
+                    if (rp, "empty") in failed or (READ_POLICIES[0], eofsig) in failed:
+                        acc.count("skipped (already failing under a weaker policy)")
+                        continue
+                    if not judge(acc, size, data, fobj, lb, case, ctl, policy):
+                        failed.add(policy)
+                        if policy == BASELINE:
+                            break
         finally:
             lb.si.read_budget = None
             try:
@@ -184,20 +286,27 @@ def main(tier):
         PID, tier, "exploration",
         "case = (file size, offset, length, block size, algorithm list) from the stated product "
         "(quick: sub-lattice index-sum = 0 mod 6); nontrivial = distinct case to which the statement "
-        "applies: non-empty clipped range and (block size >= 256, or block size 0 with range >= 256)",
-        ["synchronous loopback client/server, local-directory stub handle (plain file reads, never short)",
-         "termination detector: read-call budget 4*(blocks + range/64KiB + 2) + 64 per request"])
+        "applies: non-empty clipped range and (block size >= 256, or block size 0 with range >= 256); "
+        "every case is executed once per (read policy of the handle's file object, end-of-file signal) "
+        "and each such execution counts as one evaluation / one distinct nontrivial case",
+        ["synchronous loopback client/server, local-directory stub handle over a plain buffered file; "
+         "short reads and the SFTP_EOF code are produced by the enumerated read policy, not by the OS",
+         "read policies are deterministic per request: at most k bytes per read, or only the k-th read "
+         "call of the request is short (k <= 3); reads are never short by a data-dependent amount",
+         "termination detector: read-call budget 4*(blocks + range/min(64KiB, read cap) + 2) + 64 per request"])
     cases = all_cases(tier)
     items = []
     for si, lst in cases.items():
         # big files: split so that work items stay comparable
-        n = 1 if SIZES[si] < 65535 else (4 if tier == "quick" else 16)
+        n = (2 if tier == "quick" else 16) if SIZES[si] < 65535 else (16 if tier == "quick" else 128)
         for part in enum.chunks(lst, n):
             items.append((tier, si, part))
     items.sort(key=lambda it: -SIZES[it[1]])
     ck.merge(core.pmap(items, run_size))
     ck.extra["bound"] = {"sizes": SIZES, "blocks": blocks_for(tier), "algs": ALGS,
-                         "cases": sum(len(v) for v in cases.values())}
+                         "read_policies": [list(p) for p in READ_POLICIES], "eof_signals": EOF_SIGNALS,
+                         "grid_cases": sum(len(v) for v in cases.values()),
+                         "cases": sum(len(v) for v in cases.values()) * len(POLICIES)}
     return ck.finish()
 
 
@@ -205,7 +314,8 @@ def replay(rec):
     r = rec["replay"]
     acc = core.Acc()
     si = SIZES.index(r["size"])
-    run_size(("replay", si, [(r["offset"], r["length"], r["block_size"], r["alg"])]), acc)
+    policy = (tuple(r.get("read_policy", ["full"])), r.get("eof_signal", "empty"))
+    run_size(("replay", si, [(r["offset"], r["length"], r["block_size"], r["alg"], policy)]), acc)
     for v in acc.violations:
         print(v["key"])
         print(v["detail"])
